@@ -28,7 +28,7 @@ def run(ctx):
            "text": conc(c["text"])} for c in cases]
     codec.replay_cases(ctx, "newick-replay", cc, "newick text", lambda c: "text=%s" % bytes(c["text"]))
     vlib.log("  [R] %d model (trees, text) pairs through the real Reader and the real writer+reader (A -> %d)" % (len(cc), a))
-    leg_T(ctx, 1500 if thorough else 250)
+    leg_T(ctx, 4000 if thorough else 250)
     ctx.exhaustive = True
 
 
